@@ -352,6 +352,9 @@ func sanitizeSegment(s *WSegment) {
 	for i := range s.Rules {
 		sanitizeClauses(s.Rules[i].Clauses)
 		s.Rules[i].By = sanitizeRef(s.Rules[i].By, s.Rules[i].RCK)
+		if s.Rules[i].Weight != nil {
+			*s.Rules[i].Weight = clampInt(*s.Rules[i].Weight)
+		}
 	}
 }
 
@@ -754,6 +757,12 @@ func checkC17(seed uint64, replayDir, corpusDir string) (map[string]any, int) {
 			}
 			t.sample(map[string]any{"relation": stream, "what": what, "a": docText(a), "b": docText(b)})
 		})
+	}
+	// documents whose top level is not an object, and the empty object
+	for i, top := range []JV{jNull(), jArr(), jArr(jObj()), jStr("x"), jStr(""), jNum(0), jNum(1.5), jBool(true), jBool(false), jObj()} {
+		d1, d2 := top, top
+		units = append(units, &UnitCase{ID: fmt.Sprintf("C17/decflag/top/%d", i), Kind: "decflag", Doc: &d1},
+			&UnitCase{ID: fmt.Sprintf("C17/decseg/top/%d", i), Kind: "decseg", Doc: &d2})
 	}
 	for i := 0; i < n; i++ {
 		r := base.fork()
